@@ -1,4 +1,5 @@
 import Arimaa.Impl.Engine
+import Arimaa.Lemmas.GenAgree
 
 /-!
 Pointwise bit library.  `bit x i` is our own accessor (keeps `simp` away from `getElem` normal
